@@ -67,10 +67,11 @@ pub fn sample_covariance_online(x: &[f64], y: &[f64]) -> f64 {
         let dy = j - meany;
         meanx += dx / n;
         meany += dy / n;
-        c += dx * dy;
+        // deviation of x from the old mean times deviation of y from the updated mean
+        c += dx * (j - meany);
     }
 
-    c / n
+    c / (n - 1.)
 }
 
 #[cfg(test)]
